@@ -28,7 +28,6 @@ RULE = (
 ASSUMPTIONS = [
     "data are fixed and small ([1,2,3,1,2,3] cast to the dtype): dtype logic, not values, is explored",
     "rule (i) is asserted for numeric/bool inputs with dtype=None or a float dtype=, and for datetime/timedelta inputs with dtype=None under min/max/first/last/count (the cells the property names); (ii) and (iii) are asserted everywhere flox does not refuse",
-    "a requested fill_value that the input dtype cannot hold under a dtype-preserving reduction on bool input (NaN into bool) is recorded, not asserted",
 ]
 
 NAN = float("nan")
@@ -83,8 +82,6 @@ def rule(func, in_dtype, user_dtype, fill):
     else:
         return None
     if fill is not None:
-        if dt.kind == "b" and func in KEEP and fill != fill:
-            return None  # NaN into a bool result: recorded only (see ASSUMPTIONS)
         base = np.result_type(base, fill)
     return base
 
